@@ -358,6 +358,10 @@ class Ledger:
         else:
             cal = mir.callee_of(t)
             sig = "call:%s(%s)" % (cal["name"], ", ".join(short(df.canon(pv.op_tree(a), b)) for a in t["args"]))
+        if cls == "panic" and getattr(b, "renames", None):
+            # assertion messages quote source text: spell renamed locals the pinned way (see facts.pin_names)
+            for cur_, pin_ in b.renames.items():
+                sig = re.sub(r"\b%s\b" % re.escape(cur_), pin_, sig)
         site = {"body": b, "bb": bi, "t": t, "cls": cls, "sig": sig, "line": t["sp"][1]}
         site["discharge"] = self.discharge(site, c, pv, rg)
         return site
